@@ -1,5 +1,6 @@
 import SV.Common
 import SV.Persist.Model
+import SV.Persist.Crash
 open SV SV.Persist
 
 namespace Drv.Persist
@@ -73,17 +74,35 @@ end Drv.Persist
 namespace Drv.Crash
 open Drv.Persist
 
+/-- the driver keeps the history so far; every judgement is made by the PROVEN functions of SV.Persist.Crash
+    (`imageAllowed`, sound by `imageAllowed_sound`: an accepted image is, as a map, exactly the plain-map state at a flush
+    boundary j ≤ i+1 that is at least every boundary ≤ i) -/
 structure St where
-  p : P := P.init 1 []
+  mb : Nat := 1
+  ops : List Op := []
 
-/-- every crash image must be the flushed state before or after the operation (a flush boundary);
-    the image taken at the operation boundary must be the state after it -/
-def verdicts (before after : Store) (imgs : List String) : String :=
-  let b := showStore before
-  let a := showStore after
+/-- parse `[k=v,k=v]` (the harness's dump of a recovered directory) -/
+def parseStore (s : String) : Option Store :=
+  let body := ((s.drop 1).toString.dropEnd 1).toString
+  if body = "" then some [] else
+  (body.splitOn ",").mapM fun kv =>
+    match kv.splitOn "=" with
+    | [k, v] => do let k ← parseHex k; let v ← parseHex v; pure (k, v)
+    | _ => none
+
+/-- images taken WHILE operation `i` was in progress must be allowed for a crash during `i`; an image taken at the
+    operation boundary after it (prefix `B`) must be the state after `i + 1` operations -/
+def verdicts (mb : Nat) (ops : List Op) (i : Nat) (imgs : List String) : String :=
   let vs := imgs.map fun img =>
-    if img.startsWith "B" then (if (img.drop 1).toString = a then "allowed" else "NOTALLOWED-boundary:" ++ img ++ "-expected:" ++ a)
-    else if img = b || img = a then "allowed" else "NOTALLOWED:" ++ img
+    if img.startsWith "B" then
+      match parseStore (img.drop 1).toString with
+      | some st => if imageAllowed mb ops (i + 1) st then "allowed"
+                   else "NOTALLOWED-boundary:" ++ img ++ "-expected:" ++ showStore (crashImage mb ops (i + 1) false)
+      | none => "BADIMG:" ++ img
+    else
+      match parseStore img with
+      | some st => if imageAllowed mb ops i st then "allowed" else "NOTALLOWED:" ++ img
+      | none => "BADIMG:" ++ img
   " ".intercalate vs
 
 def imgsOf (toks : List String) : List String :=
@@ -91,24 +110,24 @@ def imgsOf (toks : List String) : List String :=
   | some s => if s = "" then [] else s.splitOn ";"
   | none => []
 
+def exec (st : St) (o : Op) (toks : List String) : St × String :=
+  let ops := st.ops ++ [o]
+  ({ st with ops := ops }, "ok " ++ verdicts st.mb ops st.ops.length (imgsOf toks))
+
 def step (st : St) (toks : List String) : St × String :=
   match toks with
-  | "begin" :: rest => ({ p := P.init (natOf (kvGet rest "batch")) [] }, "ok")
+  | "begin" :: rest => ({ mb := natOf (kvGet rest "batch"), ops := [] }, "ok")
   | "put" :: k :: v :: _ =>
     match parseHex k, parseVal v with
-    | some k, some v =>
-      let p' := st.p.put k v
-      ({ p := p' }, "ok " ++ verdicts st.p.db p'.db (imgsOf toks))
+    | some k, some v => exec st (.put k v) toks
     | _, _ => (st, "bad-op")
   | "rm" :: k :: _ =>
     match parseHex k with
-    | some k =>
-      let p' := st.p.remove k
-      ({ p := p' }, "ok " ++ verdicts st.p.db p'.db (imgsOf toks))
+    | some k => exec st (.rm k) toks
     | none => (st, "bad-op")
-  | "tick" :: _ => let p' := st.p.flush; ({ p := p' }, "ok " ++ verdicts st.p.db p'.db (imgsOf toks))
-  | "close" :: _ => let p' := st.p.flush; ({ p := p' }, "ok " ++ verdicts st.p.db p'.db (imgsOf toks))
-  | "reopen" :: _ => let p' := st.p.reopen; ({ p := p' }, "ok " ++ verdicts st.p.db p'.db (imgsOf toks))
+  | "tick" :: _ => exec st .tick toks
+  | "close" :: _ => exec st .tick toks
+  | "reopen" :: _ => exec st .reopen toks
   | _ => (st, "bad-op")
 
 end Drv.Crash
